@@ -2,7 +2,7 @@
 //! reference model (kept as a small set of candidate states where the properties leave the
 //! timing of lazy reaping open).
 
-use std::collections::{BTreeMap, BTreeSet};
+use std::collections::{BTreeMap, BTreeSet, VecDeque};
 
 use super::gen::{Action, Scenario};
 use super::hosts::{make_host, Host, HostSel, StepObs};
@@ -107,6 +107,8 @@ pub struct RunOutcome {
     pub obs: Vec<(StepObs, Vec<Outcome>)>,
     /// per step boundary (before step i): droppable outstanding requests, registered handles, live roots
     pub boundaries: Vec<Boundary>,
+    /// at some step the reference left open when an aborted command is actually discarded
+    pub reap_slack: bool,
 }
 
 #[derive(Clone, Debug, Default)]
@@ -136,7 +138,8 @@ struct Run<'a> {
     peak_outstanding: usize,
     obs_all: Vec<(StepObs, Vec<Outcome>)>,
     boundaries: Vec<Boundary>,
-    sticky_seen: bool,
+    sticky_reported: bool,
+    reap_slack: bool,
     defer_drops: bool,
     bridge_dups: bool,
     races: bool,
@@ -150,6 +153,21 @@ enum StepEnd {
 }
 
 impl Run<'_> {
+    /// every surviving candidate follows the implementation where it keeps a stuck `then_stream`
+    /// chain which the property wants discarded: the known finding S12, reported once per run
+    fn report_sticky(&mut self, id: &'static str, si: usize, sel: HostSel, cov: &mut Cov, what: &str) -> Result<(), Violation> {
+        if self.sticky_reported || self.cands.is_empty() || !self.cands.iter().all(|m| m.g.sticky_kept) {
+            return Ok(());
+        }
+        self.sticky_reported = true;
+        if id == "C07" || id == "C13" {
+            cov.tolerate(viol(id, "stuck_task_never_evicted:then_stream", format!("step {si} on {sel:?}: a task whose every request and stream is gone was not discarded (a stream chain using then_stream keeps a clone of its own waker alive); {what}")))?;
+        } else {
+            cov.bump("probe:known_divergence_stuck_task_followed");
+        }
+        Ok(())
+    }
+
     fn step(&mut self, si: usize, step: &[Action], cov: &mut Cov) -> Result<StepEnd, Violation> {
         let id = self.id;
         let ck = self.ck;
@@ -268,6 +286,9 @@ impl Run<'_> {
                         }
                     };
                     outcomes.push(real);
+                    if std::env::var("VERIF_DEBUG").is_ok() {
+                        eprintln!("step {si} resolve {key:?} -> {real:?}");
+                    }
                     if real == Outcome::Accepted {
                         had_call = true;
                     }
@@ -369,52 +390,72 @@ impl Run<'_> {
             let mut next: Vec<Model> = vec![];
             let mut first_out: Option<(StepOut, BTreeMap<RootId, bool>)> = None;
             for m in &self.cands {
-                let mut trial = m.clone();
-                let none = BTreeSet::new();
-                let out0 = trial.settle(&none);
-                let z = trial.optional_zombies();
-                for sub in subsets(&z) {
-                    let (m2, out) = if sub.is_empty() {
-                        (trial.clone(), out0.clone())
+                // reaping one discarded command early can let a following command start, run and
+                // become discardable in the same settle: the choice is iterated to a fixpoint
+                let mut work: VecDeque<BTreeSet<u64>> = VecDeque::new();
+                let mut seen: BTreeSet<BTreeSet<u64>> = BTreeSet::new();
+                work.push_back(BTreeSet::new());
+                seen.insert(BTreeSet::new());
+                let mut evaluated = 0;
+                while let Some(sub) = work.pop_front() {
+                    evaluated += 1;
+                    let mut variants = vec![];
+                    let mut m2 = m.clone();
+                    m2.g.sticky = None;
+                    let out = m2.settle(&sub);
+                    if m2.g.sticky.is_some() && !m.g.keep_sticky {
+                        // the reference discarded a stuck `then_stream` chain, which the implementation
+                        // is known to keep (S12): a twin which follows the implementation goes along
+                        let mut m3 = m.clone();
+                        m3.g.keep_sticky = true;
+                        let out3 = m3.settle(&sub);
+                        variants.push((m2, out));
+                        variants.push((m3, out3));
                     } else {
-                        let mut m2 = m.clone();
-                        let out = m2.settle(&sub);
-                        (m2, out)
-                    };
-                    if let Some(why) = &m2.g.ambiguous {
-                        cov.bump(&format!("discard:{}", why.split(' ').take(3).collect::<Vec<_>>().join("_")));
-                        self.discarded = true;
-                        return Ok(StepEnd::Stop);
+                        variants.push((m2, out));
                     }
-                    if first_out.is_none() {
-                        first_out = Some((out.clone(), m2.roots_done()));
-                    }
-                    if m2.g.sticky.is_some() {
-                        self.sticky_seen = true;
-                    }
-                    let ok = effects_equal(&out.effects, &obs.effects)
-                        && log_multiset_equal(&out.log, &obs.new_log)
-                        && (!ck.done || obs.roots_done.as_ref().map_or(true, |d| *d == m2.roots_done()));
-                    if ok && !next.contains(&m2) {
-                        if !sub.is_empty() {
-                            cov.bump("probe:early_reap_branch_taken");
+                    if evaluated < 32 {
+                        let z: Vec<u64> = variants[0].0.optional_zombies().into_iter().filter(|u| !sub.contains(u)).collect();
+                        for more in subsets(&z) {
+                            if more.is_empty() {
+                                continue;
+                            }
+                            let mut s2 = sub.clone();
+                            s2.extend(more);
+                            self.reap_slack = true;
+                            if seen.insert(s2.clone()) {
+                                if !sub.is_empty() {
+                                    cov.bump("probe:early_reap_second_level");
+                                }
+                                work.push_back(s2);
+                            }
                         }
-                        next.push(m2);
+                    }
+                    for (m2, out) in variants {
+                        if std::env::var("VERIF_DEBUG").is_ok() {
+                            eprintln!("step {si} cand reap={sub:?} keep_sticky={} effects={:?} log={:?} done={:?} amb={:?} | real effects={:?} done={:?}", m2.g.keep_sticky, out.effects, out.log, m2.roots_done(), m2.g.ambiguous, obs.effects, obs.roots_done);
+                        }
+                        if let Some(why) = &m2.g.ambiguous {
+                            cov.bump(&format!("discard:{}", why.split(' ').take(3).collect::<Vec<_>>().join("_")));
+                            self.discarded = true;
+                            return Ok(StepEnd::Stop);
+                        }
+                        if first_out.is_none() {
+                            first_out = Some((out.clone(), m2.roots_done()));
+                        }
+                        let ok = effects_equal(&out.effects, &obs.effects)
+                            && log_multiset_equal(&out.log, &obs.new_log)
+                            && (!ck.done || obs.roots_done.as_ref().map_or(true, |d| *d == m2.roots_done()));
+                        if ok && !next.contains(&m2) {
+                            if !sub.is_empty() {
+                                cov.bump("probe:early_reap_branch_taken");
+                            }
+                            next.push(m2);
+                        }
                     }
                 }
             }
             if next.is_empty() {
-                if self.sticky_seen {
-                    // the reference discarded a task which can never be woken again, the
-                    // implementation is known to keep it: a C07/C13 matter, judged there only
-                    if ck.id == "C07" || ck.id == "C13" {
-                        cov.tolerate(viol(id, "stuck_task_never_evicted:then_stream", format!("step {si} on {sel:?}: a task whose every request and stream is gone was not discarded (a stream chain using then_stream keeps a clone of its own waker alive); real done flags {:?}", obs.roots_done)))?;
-                    } else {
-                        cov.bump("discard:known_divergence_stuck_task");
-                        self.discarded = true;
-                    }
-                    return Ok(StepEnd::Stop);
-                }
                 let (out, mdone) = first_out.unwrap();
                 let (miss, extra) = diff_effects(&out.effects, &obs.effects);
                 let (lmiss, lextra) = diff_log(&out.log, &obs.new_log);
@@ -444,6 +485,7 @@ impl Run<'_> {
                 return Ok(StepEnd::Stop);
             }
             self.cands = next;
+            self.report_sticky(id, si, sel, cov, &format!("real done flags {:?}", obs.roots_done))?;
             let outstanding = self.cands[0].outstanding().len();
             self.max_outstanding = self.max_outstanding.max(outstanding);
         }
@@ -456,10 +498,11 @@ impl Run<'_> {
             }
             if ck.occupancy && ck.model {
                 let fits = |m: &Model| st.executor_tasks <= m.live_command_roots() + m.legacy.len();
-                if !self.cands.iter().any(fits) && (self.sticky_seen || self.cands.iter().any(|m| m.g.sticky.is_some())) {
-                    cov.tolerate(viol(id, "stuck_task_never_evicted:then_stream", format!("step {si} on {sel:?}: {} executor tasks although every request and stream of the stuck chain is gone (a stream chain using then_stream keeps a clone of its own waker alive)", st.executor_tasks)))?;
-                    return Ok(StepEnd::Stop);
+                if self.cands.iter().any(fits) && self.cands.iter().any(|m| m.g.keep_sticky) {
+                    // the task count tells the twins apart
+                    self.cands.retain(fits);
                 }
+                self.report_sticky(id, si, sel, cov, &format!("{} executor tasks", st.executor_tasks))?;
                 if !self.cands.iter().any(fits) && self.legacy_dropped {
                     cov.tolerate(viol(id, "legacy_task_survives_dropped_request", format!("step {si} on {sel:?}: {} executor tasks; a task of the old capability API whose request the shell dropped is never woken and stays (with everything it captured) until the core is dropped", st.executor_tasks)))?;
                     return Ok(StepEnd::Stop);
@@ -531,7 +574,8 @@ pub fn run_scenario_on(scn: &Scenario, sel: HostSel, ck: &Checks, cov: &mut Cov)
         peak_outstanding: 0,
         obs_all: vec![],
         boundaries: vec![],
-        sticky_seen: false,
+        sticky_reported: false,
+        reap_slack: false,
         defer_drops: scn.defer_drops,
         bridge_dups: scn.bridge_dups,
         races: false,
@@ -581,6 +625,7 @@ pub fn run_scenario_on(scn: &Scenario, sel: HostSel, ck: &Checks, cov: &mut Cov)
         let m = &run.cands[0];
         cov.add("probe:evicted_task", m.g.evictions);
         cov.add("probe:zombie_reaped", m.g.zombies_reaped);
+        cov.add("probe:aborted_in_poll_with_output_reaped_at_once", m.g.immediate_reaps);
         if run.full_log_len > 0 && !run.dropped_all {
             let real_full = run.host.full_log();
             if !run.cands.iter().any(|m| log_multiset_equal(&m.log, &real_full)) {
@@ -617,7 +662,7 @@ pub fn run_scenario_on(scn: &Scenario, sel: HostSel, ck: &Checks, cov: &mut Cov)
             }
         }
     }
-    let Run { host, shape, max_outstanding, mut faults, obs_all, boundaries, .. } = run;
+    let Run { host, shape, max_outstanding, mut faults, obs_all, boundaries, reap_slack, .. } = run;
     drop(host);
     if ck.occupancy && !discarded {
         let toks = super::ops::live_tokens() - tokens0;
@@ -631,7 +676,7 @@ pub fn run_scenario_on(scn: &Scenario, sel: HostSel, ck: &Checks, cov: &mut Cov)
         crux_core::verif::set_thread_controller(None);
     }
     let nontrivial = max_outstanding >= 2 && (faults > 0 || out_of_order(scn));
-    Ok(RunOutcome { info: RunInfo { shape, nontrivial, discarded }, obs: obs_all, boundaries })
+    Ok(RunOutcome { info: RunInfo { shape, nontrivial, discarded }, obs: obs_all, boundaries, reap_slack })
 }
 
 fn classify_resolve(before: &super::model::ReqState, exp: Outcome, cov: &mut Cov, faults: &mut u32) {
